@@ -499,10 +499,13 @@ func (c *collector) getName(m metricdata.Metrics, typ *dto.MetricType) string {
 	if addCounterSuffix {
 		// Remove the _total suffix here, as we will re-add the total suffix
 		// later, and it needs to come after the unit suffix.
-		name = strings.TrimSuffix(name, counterSuffix)
+		// Only trim the suffix if something other than the suffix remains.
+		if trimmed := strings.TrimSuffix(name, counterSuffix); trimmed != "" {
+			name = trimmed
+		}
 		// If the last character is an underscore, or would be converted to an underscore, trim it from the name.
 		// an underscore will be added back in later.
-		if convertsToUnderscore(rune(name[len(name)-1])) {
+		if len(name) > 1 && convertsToUnderscore(rune(name[len(name)-1])) {
 			name = name[:len(name)-1]
 		}
 	}
